@@ -45,8 +45,8 @@ func init() {
 				d := string(x.Tokens(spLabelNul, ndn))
 				c12Pair(x, u, d)
 			})
-			c.Explore("ordering", "all sequences of <=4 segments with one use and 1-3 competing definitions; a segment is the use, a definition at top level / in a quote / in a list item / in a list item in a quote / twice in one paragraph, or (at most once) one root container holding a tree of quotes and list items of depth <=3 with definitions at different depths in every order", -1, 4, c12Ordering)
-			for _, p := range []planEntry{{spaces.I, 4, 5}, {spaces.XRef, 5, 6}, {spaces.XLink, 5, 6}, {spaces.L, 3, 4}, {spaces.XNulRef, 5, 6}, {spaces.XDefs, 5, 6}} {
+			c.Explore("ordering", "all sequences of <=4 segments with one use and 1-3 competing definitions; a segment is the use (shortcut, collapsed, full reference or collapsed image; in a paragraph or as an ATX heading), a definition at top level / in a quote / in a list item / in a list item in a quote / twice in one paragraph, or (at most once) one root container holding a tree of quotes and list items of depth <=3 with definitions at different depths in every order; with and without a final line ending", -1, 4, c12Ordering)
+			for _, p := range []planEntry{{spaces.I, 4, 5}, {spaces.XRef, 5, 6}, {spaces.XLink, 5, 6}, {spaces.L, 3, 4}, {spaces.XNulRef, 5, 6}, {spaces.XDefs, 5, 6}, {spaces.XRefTail, 5, 6}} {
 				sp := p.sp
 				n := c.Pick(p.quick, p.thorough)
 				c.Explore("closure-"+sp.Name, fmt.Sprintf("closure laws on all inputs of <=%d tokens over %s", n, sp.Name), -1, n, func(x *X) {
@@ -136,6 +136,7 @@ func c12Ordering(x *X) {
 	useLab := []string{"foo", "Foo", "foo  BAR"}[li]
 	var sb strings.Builder
 	ndefs, uses := 0, 0
+	useIsImage := false
 	def := func(l string) string {
 		ndefs++
 		return fmt.Sprintf("[%s]: /d%d 't%d'", l, ndefs, ndefs)
@@ -153,7 +154,15 @@ func c12Ordering(x *X) {
 				return // exactly one use; duplicates are the same document shape
 			}
 			uses++
-			sb.WriteString("[" + useLab + "]\n\n")
+			// The use: shortcut, collapsed, full reference or collapsed image, in a
+			// paragraph or as the whole content of an ATX heading.
+			form := x.ChooseFree(4)
+			use := []string{"[" + useLab + "]", "[" + useLab + "][]", "[x][" + useLab + "]", "![" + useLab + "][]"}[form]
+			useIsImage = form == 3
+			if li != 2 && x.ChooseFree(2) == 1 {
+				use = "# " + use // (a label spanning lines cannot sit in a heading)
+			}
+			sb.WriteString(use + "\n\n")
 		case 2:
 			sb.WriteString(def(lab) + "\n\n")
 		case 3:
@@ -182,11 +191,21 @@ func c12Ordering(x *X) {
 	if uses != 1 || ndefs == 0 || ndefs > 3 {
 		return
 	}
-	in := []byte(sb.String())
+	doc := sb.String()
+	if x.ChooseFree(2) == 1 {
+		// no line ending after the last segment: the input ends with the use or
+		// with a definition's last character
+		doc = strings.TrimRight(doc, "\n")
+	}
+	in := []byte(doc)
 	blocks, refs := cm.Parse(clone(in))
 	out, _ := renderHTML(&cm.HTMLRenderer{ReferenceMap: refs}, blocks)
 	x.Validated()
-	if !strings.Contains(out, `<a href="/d1" title="t1">`) {
+	wantTag := `<a href="/d1" title="t1">`
+	if useIsImage {
+		wantTag = `<img src="/d1" title="t1"`
+	}
+	if !strings.Contains(out, wantTag) {
 		x.Fail("first-definition-wins", "", in, "the use must resolve to the first definition in source order (/d1, t1); rendered %q", out)
 		return
 	}
